@@ -309,7 +309,7 @@ import facts as _facts  # noqa: E402
 prop(
     "C10",
     "Necessary-condition clauses of C10 (PREC): the level functions of the recursive-descent parser are discovered from Parser::expression through the resolved call graph; for each documented row of book/src/basics/operations.md the token kinds of its documented spellings (mapped through Tokenizer::scan_single_token's own arms and keyword table) are consumed, as prefix or infix/postfix operators, at a level whose nesting depth is ≥ that of every row below it (17 rows, 16 ordered pairs); `^` parses its right operand by self-recursion (right-assoc), conversions and all parse_binop levels fold in a loop (left-assoc). This includes `per` tighter than `/`, implicit multiplication tighter than `/`, unary minus looser than `^` and `!`. Not decided: rejection of every input outside the grammar, number-literal forms.",
-    [("PREC", lambda ctx: rule_prec(ctx.lib, _facts.REPO))],
+    [("PREC", lambda ctx: rule_prec(ctx.lib, ctx.repo or _facts.REPO))],
     TRUST + ["book/src/basics/operations.md is the oracle for the documented precedence"],
 )
 
@@ -450,6 +450,11 @@ from esctab import rule_esctab  # noqa: E402
 
 PROPERTIES["C15"]["rules"] += [("ESCTAB", lambda ctx: rule_esctab(ctx.lib))]
 PROPERTIES["C15"]["explanation"] += " (ESCTAB) The printer's string escaper and the parser's un-escaper are inverse tables: every emitted escape reads back as the same character and every character the parser treats specially is escaped."
+
+from history import rule_history  # noqa: E402
+
+PROPERTIES["C07"]["rules"] += [("HISTORY", lambda ctx: rule_history(ctx.lib))]
+PROPERTIES["C07"]["explanation"] += " (HISTORY) Necessary condition of the replay clause: SessionHistory::push appends every evaluated input unconditionally and unchanged, and save_inner skips an item only when it failed and error lines are excluded."
 
 NOT_APPLICABLE = {
     "C03": "numerical agreement of conversion factors over 500 units is a statement about run-time values; no structural clause is a necessary condition that is not already covered under C04/C11/C12 (static analysis cannot bound the arithmetic)",
